@@ -37,7 +37,7 @@ func reference(b hx.Behaviour, po hx.PubOutcome, withPub bool) expect {
 	}
 	e := expect{nout: nout}
 	switch b {
-	case hx.BErr, hx.BErrOut, hx.BPanicStr, hx.BPanicErr, hx.BPanicNil, hx.BCanceledOut, hx.BWrappedCanceledOut:
+	case hx.BErr, hx.BErrOut, hx.BPanicStr, hx.BPanicErr, hx.BPanicNil, hx.BCanceledOut, hx.BWrappedCanceledOut, hx.BRootlessErrOut, hx.BTypedNilErrOut:
 		e.settle = "nacked"
 		return e
 	case hx.BAckErr, hx.BAckPanic:
